@@ -113,7 +113,9 @@ var testLocations = func() []*time.Location {
 		time.FixedZone("Z\\", 0), time.FixedZone("UTC+5:45", 5*3600+45*60), time.FixedZone("\xff", -1),
 		// zones that share a NAME but not their rules (what time.Parse produces for numeric offsets, and what
 		// ambiguous abbreviations are): a location is identified by its pointer, never by its name
-		time.FixedZone("", 3600), time.FixedZone("CST", -6*3600), time.FixedZone("CST", 8*3600), time.FixedZone("UTC", 5400), time.FixedZone("Local", -3*3600)}
+		time.FixedZone("", 3600), time.FixedZone("CST", -6*3600), time.FixedZone("CST", 8*3600), time.FixedZone("UTC", 5400), time.FixedZone("Local", -3*3600),
+		// offsets WEST of Greenwich that are not whole hours (Newfoundland, Marquesas, local mean times), and the largest real offset
+		time.FixedZone("NST", -(3*3600 + 1800)), time.FixedZone("MART", -(9*3600 + 1800)), time.FixedZone("LMT", -(44*60 + 30)), time.FixedZone("LINT", 14*3600)}
 	for _, n := range []string{"America/New_York", "Asia/Kolkata", "Australia/Lord_Howe"} {
 		if l, err := time.LoadLocation(n); err == nil {
 			locs = append(locs, l)
@@ -168,6 +170,18 @@ func (e verboseErr) Format(f fmt.State, c rune) {
 		fmt.Fprint(f, e.s+"\nverbose\t\"x\"")
 	} else {
 		fmt.Fprint(f, e.s)
+	}
+}
+
+// swapVerboseErr: %+v differs from Error() in CONTENT but not in length (a code instead of an operation name).
+type swapVerboseErr struct{ s string }
+
+func (e swapVerboseErr) Error() string { return "op:" + e.s }
+func (e swapVerboseErr) Format(f fmt.State, c rune) {
+	if c == 'v' && f.Flag('+') {
+		fmt.Fprint(f, "E7:"+e.s)
+	} else {
+		fmt.Fprint(f, "op:"+e.s)
 	}
 }
 
@@ -245,6 +259,8 @@ func (e *errSpec) build() error {
 		return verboseErr{e.Msg}
 	case "plainfmt":
 		return plainFmtErr{e.Msg}
+	case "swapverbose":
+		return swapVerboseErr{e.Msg}
 	case "group":
 		g := groupErr{msg: e.Msg}
 		for _, k := range e.Kids {
@@ -292,7 +308,7 @@ func genErrSpec(t *rapid.T, depth int, faults bool) *errSpec {
 		}
 		return cur
 	}
-	kinds := []string{"plain", "plain", "verbose", "plainfmt", "ptr", "detail"}
+	kinds := []string{"plain", "plain", "verbose", "plainfmt", "ptr", "detail", "swapverbose"}
 	if depth > 0 {
 		kinds = append(kinds, "group", "group")
 	}
